@@ -1,10 +1,12 @@
 (* Extract.v -- extraction of the executable model to OCaml.
    Directives used (all part of the trusted base, see DESIGN.md §6):
    ExtrOcamlBasic (bool, option, unit, list, prod, sumbool -> OCaml types),
-   ExtrOcamlNatInt (nat -> int), ExtrOcamlZBigInt (positive, N, Z -> Big_int_Z). *)
+   ExtrOcamlNatInt (nat -> int), ExtrOcamlZBigInt (positive, N, Z -> Big_int_Z).
+   BlockInst / BlockKernels: the static_matrix<T,b,b> Scalar instance and the block inner products
+   (ops_kernels_block.ml); ComplexInst: std::complex<T> as a Scalar instance. *)
 From Amgcl Require Import ExtractCommon.
 From Coq Require Import QArith Qcanon.
-From Amgcl Require Import Scalar QcInst Vec Crs Kernels.
+From Amgcl Require Import Scalar QcInst Vec Crs Kernels DirectUtil Inverse StaticMat BlockInst BlockKernels ComplexInst.
 Separate Extraction
   QcInst.QcS Scalar.is_zero Scalar.smax Scalar.smin
-  Vec Crs Kernels.
+  Vec Crs Kernels StaticMat BlockInst BlockKernels ComplexInst.
